@@ -2,6 +2,7 @@ package p_compile
 
 import (
 	"bytes"
+	"encoding/json"
 	"sort"
 	"strings"
 
@@ -191,4 +192,48 @@ func hangProne(c progCase) bool {
 		})
 	}
 	return n >= 1 || (recEdge > 0 && hasImport)
+}
+
+func jsonOf(v any) string {
+	b, err := json.Marshal(v)
+	if err != nil {
+		return "marshal error: " + err.Error()
+	}
+	return string(b)
+}
+
+// hasQuotedKeywordName reports whether some key segment is a quoted reserved keyword, i.e. an
+// ordinary object that happens to be called "style", "shape", "label", ...
+func hasQuotedKeywordName(c progCase) bool {
+	found := false
+	for _, src := range c.Files {
+		m, _ := d2parser.Parse("f.d2", bytes.NewReader(src), nil)
+		if m == nil {
+			continue
+		}
+		d2ast.Walk(m, func(nd d2ast.Node) bool {
+			kp, ok := nd.(*d2ast.KeyPath)
+			if !ok || kp == nil {
+				return true
+			}
+			for _, sb := range kp.Path {
+				if sb.UnquotedString != nil || sb.Unbox() == nil {
+					continue
+				}
+				if _, ok := d2ast.ReservedKeywords[strings.ToLower(sb.Unbox().ScalarString())]; ok {
+					found = true
+				}
+			}
+			return true
+		})
+	}
+	return found
+}
+
+// classifyCompilePanic narrows panic signatures by the construct that is known to trigger them.
+func classifyCompilePanic(sig string, c progCase) string {
+	if strings.HasPrefix(sig, "panic:") && hasQuotedKeywordName(c) {
+		return "panic@quoted-keyword-name"
+	}
+	return sig
 }
